@@ -99,6 +99,11 @@ def _run(rec, sim, case, M, L, binary, decl, path, srv, V):
         sim.quiesce()
         if srv == 'H' and decl in ('none', 'lt'):
             return      # not expressible as one HTTP/1.1 request
+        if srv == 'N' and decl != 'eq':
+            # (tornado hands a request to its handler once the whole declared
+            # body has arrived: one that declares more than it sends is never
+            # dispatched at all)
+            return
         if declared is None:
             # no Content-Length at all (e.g. a chunked upload): nothing is
             # "declared larger", but nothing oversize may reach the app and no
@@ -139,7 +144,7 @@ def _run(rec, sim, case, M, L, binary, decl, path, srv, V):
         # reader bound
         rec.count('reader_bound')
         bound = min(declared, M)
-        if srv in ('T', 'H'):
+        if srv in ('T', 'H', 'N'):
             asked = sum(r if (r is not None and r >= 0) else 10 ** 12
                         for r in t.reads)
             if asked > bound:
@@ -300,7 +305,7 @@ def all_cases(tier, seed):
             if L > 3 * 10 ** 6:
                 continue
             for binary in (False, True):
-                for srv in ('T', 'A', 'H'):
+                for srv in ('T', 'A', 'H', 'N'):
                     for path in ('post', 'post-mid-upgrade', 'ws-first',
                                  'ws-steady', 'ws-probe', 'ws-upgrade'):
                         decls = ['eq', 'lt', 'gt', 'none'] if \
@@ -310,6 +315,8 @@ def all_cases(tier, seed):
                             # bytes beyond the declared length are the next
                             # pipelined request, not part of this body)
                             decls = [d for d in decls if d in ('eq', 'gt')]
+                        if srv == 'N':
+                            decls = ['eq']
                         for d in decls:
                             cases.append({'kind': 'size', 'M': M, 'L': L,
                                           'binary': binary, 'decl': d,
@@ -324,11 +331,11 @@ def all_cases(tier, seed):
                           'decl': rng.choice(['eq', 'lt', 'gt', 'none']),
                           'path': rng.choice(['post', 'post-mid-upgrade',
                                               'ws-first', 'ws-steady']),
-                          'srv': rng.choice('TAH'),
+                          'srv': rng.choice('TAHN'),
                           'chunks': rng.choice([1, 2, 5])})
     for k in range(0, 19):
         for limit in (1, 16):
-            for srv in ('T', 'A', 'H'):
+            for srv in ('T', 'A', 'H', 'N'):
                 for form in (None, 'quote', 'plus'):
                     cases.append({'kind': 'count', 'k': k, 'limit': limit,
                                   'srv': srv, 'form': form})
